@@ -202,6 +202,7 @@ func compare(c *Case, ans []string, r *RealOut) []Mismatch {
 	// SetValue calls after the parse: result class (and message) of each, and from then on the values the
 	// model holds after the last of them
 	idx := 1
+	partialMap := false
 	for i := range c.SetVals {
 		if idx >= len(ans) {
 			add("driver", "answer", "", "missing S")
@@ -222,6 +223,11 @@ func compare(c *Case, ans []string, r *RealOut) []Mismatch {
 		}
 		if want != got {
 			add("setvalue", fmt.Sprintf("call%d", i), want, got)
+		}
+		if sf["st"] == "err" && isMapOption(c, c.SetVals[i].Name) {
+			// a map is written entry by entry: a failing SetValue leaves the entries before the malformed one
+			// behind, which the model (like for a failing Save during Parse) does not track
+			partialMap = true
 		}
 		// the S answer carries the option values after the call
 		for k := range f {
@@ -286,7 +292,7 @@ func compare(c *Case, ans []string, r *RealOut) []Mismatch {
 	}
 	// values and views are compared on success, and on failures that happen before any option is touched
 	// by a partially applied Save (the model does not track partial effects of a failing Save)
-	if f["st"] == "ok" && !r.HasErr {
+	if f["st"] == "ok" && !r.HasErr && !partialMap {
 		keys := make([]string, 0, len(f))
 		for k := range f {
 			keys = append(keys, k)
@@ -323,7 +329,16 @@ func compare(c *Case, ans []string, r *RealOut) []Mismatch {
 		_, df := parseAnswer(ans[idx])
 		idx++
 		if _, none := df["none"]; !none && f["st"] == "ok" && !r.HasErr {
-			compareDispatch(c, df, r, add)
+			addD := add
+			if partialMap {
+				// the views handed to the command function carry the partially written map as well
+				addD = func(cat, field, m, re string) {
+					if cat != "dview" {
+						add(cat, field, m, re)
+					}
+				}
+			}
+			compareDispatch(c, df, r, addD)
 		}
 	}
 	if c.Help {
@@ -427,4 +442,26 @@ func compareDispatch(c *Case, df map[string]string, r *RealOut, add func(cat, fi
 			add("derr", "text", want, r.DErrText)
 		}
 	}
+}
+
+// is `name` the name or an alias of a map option of the definition script
+func isMapOption(c *Case, name string) bool {
+	for _, op := range c.Script {
+		if op.Op != "opt" || op.Kind != KMap {
+			continue
+		}
+		if op.Name == name {
+			return true
+		}
+		for _, m := range op.Mods {
+			if m.M == "alias" {
+				for _, a := range m.Strs {
+					if a == name {
+						return true
+					}
+				}
+			}
+		}
+	}
+	return false
 }
